@@ -137,6 +137,7 @@ def repeated_exh(tier, seed):
 
 
 def cases(tier, seed, spec):
+    yield from gen.deep(tier, seed)
     yield from repeated_exh(tier, seed)
     yield from gen.repeated(seed, 40 if tier == 'quick' else 400)
     yield from gen.biglat(tier)
@@ -200,6 +201,9 @@ def run_case(concepts, case, spec):
         COL.count('session_requeries')
     POOL.add(ctx)
     # cross-check with context.lattice (driver side, C03 judges the lattice itself)
+    if case.get('deep'):        # Lindig on a 1 000-chain takes minutes: generators only
+        COL.count('deep_cases')
+        return
     lat = common.get_lattice(ctx)
     if lat is not RAISED:
         latset = {(tuple(c.extent), tuple(c.intent)) for c in lat}
